@@ -44,6 +44,16 @@ void h_options_roundtrip(void)
 #endif
   g_oom = nondet_bool();
   if (ares_init_by_options(&A, &O1, m1) != ARES_SUCCESS) return;     /* not accepted by initialisation */
+  { /* which options count as explicitly supplied: everything in the mask, except values that mean "use the default" */
+    unsigned e = (unsigned)m1;
+    if (e & ARES_OPT_TIMEOUTMS) { e &= ~(unsigned)ARES_OPT_TIMEOUT; if (O1.timeout <= 0) e &= ~(unsigned)ARES_OPT_TIMEOUTMS; }
+    else if (e & ARES_OPT_TIMEOUT) { e &= ~(unsigned)ARES_OPT_TIMEOUT; if (O1.timeout > 0) e |= ARES_OPT_TIMEOUTMS; }
+    if (O1.tries <= 0) e &= ~(unsigned)ARES_OPT_TRIES; if (O1.ndots < 0) e &= ~(unsigned)ARES_OPT_NDOTS; if (O1.maxtimeout <= 0) e &= ~(unsigned)ARES_OPT_MAXTIMEOUTMS;
+    if (O1.socket_send_buffer_size <= 0) e &= ~(unsigned)ARES_OPT_SOCK_SNDBUF; if (O1.socket_receive_buffer_size <= 0) e &= ~(unsigned)ARES_OPT_SOCK_RCVBUF; if (O1.ednspsz <= 0) e &= ~(unsigned)ARES_OPT_EDNSPSZ;
+    if (O1.lookups == NULL) e &= ~(unsigned)ARES_OPT_LOOKUPS; if (O1.resolvconf_path == NULL) e &= ~(unsigned)ARES_OPT_RESOLVCONF; if (O1.hosts_path == NULL) e &= ~(unsigned)ARES_OPT_HOSTS_FILE; if (O1.udp_max_queries <= 0) e &= ~(unsigned)ARES_OPT_UDP_MAX_QUERIES;
+    e |= ARES_OPT_QUERY_CACHE;
+    __CPROVER_assert(A.optmask == e, "C16: every option the application supplied is recorded as explicit (the record is what keeps system configuration from overriding it) -- also an explicitly EMPTY domain list or sortlist; only 'use the default' values are dropped");
+  }
   struct ares_options O2; int m2 = nondet_int();
   /* the caller's struct is NOT zeroed by save_options: fields whose bit is clear stay arbitrary and must not matter */
   O2.flags = nondet_int(); O2.timeout = nondet_int(); O2.tries = nondet_int(); O2.ndots = nondet_int(); O2.maxtimeout = nondet_int(); O2.udp_port = nondet_u16(); O2.tcp_port = nondet_u16();
